@@ -144,8 +144,8 @@ unsafe fn level_swap<M: Manager>(
                     }
                     node => {
                         debug_assert!(node.level() > lower_no);
-                        // The child is below the lower level, so we always have
-                        // this child
+                        // The child is below the lower level, so the cofactors
+                        // are determined by the diagram rules (see below)
                         (0..M::InnerNode::ARITY).map(|_| c.borrowed()).collect()
                     }
                 }
@@ -157,7 +157,14 @@ unsafe fn level_swap<M: Manager>(
                 let res = <M::Rules as DiagramRules<_, _, _>>::reduce(
                     manager,
                     upper_no_pre,
-                    grandchildren.iter().map(|v| manager.clone_edge(&v[i])),
+                    children.iter().zip(&grandchildren).map(|(c, v)| {
+                        if manager.get_node(c).level() == lower_no_pre {
+                            manager.clone_edge(&v[i])
+                        } else {
+                            // `c` skips the lower level
+                            <M::Rules as DiagramRules<_, _, _>>::cofactor_skipped(manager, &**c, i)
+                        }
+                    }),
                 );
                 match res {
                     ReducedOrNew::Reduced(e) => e,
